@@ -8,3 +8,5 @@ import RzmqModel.Props.C06
 #print axioms Rzmq.C06.plain_server_without_credentials_rejects
 #print axioms Rzmq.C06.plain_client_requires_welcome
 #print axioms Rzmq.C06.abstract_mechanism_not_skipped
+#print axioms Rzmq.C06.plain_source_shape
+#print axioms Rzmq.C06.unset_credential_admits_nobody
